@@ -27,3 +27,7 @@ reg("C05", "fault_enumeration", "DESIGN 5.3 C05",
     "The same storage-fault injector as C04 plus structure-aware DER corruption of every TLV node, boundary values in every key-identifier field, whole-record garbage and PRNG strings feed the real unprotect (offline root key, and empty cache with no reachable DC); outcome must be returns / needs-network / one of the deliberate error types, within a KDF budget of 300 calls and a traced-line budget affine in the input length (deterministic counters turn hangs into replayable verdicts).",
     "trusted: budgets are generous multiples of maxima on valid input; sys.settrace line counting restricted to dpapi_ng frames; PRNG byte strings are a weak generator",
     T + ": enumerated storage faults with deterministic step budgets as bounded-liveness oracle")
+reg("C01", "exploration", "DESIGN 5.2 C01",
+    "Plans [set simulated clock (boundary-biased) - protect via offline root key / online seed-key reply / online public-key reply - advance clock across L2/L1/L0 boundaries - optional LAPS re-layout at rest - unprotect via offline root key / online with fresh cache / warm shared cache] run on the real public API in both flavours against the reference DC (envelope-shape knob, PRNG segmentation); the returned bytes must equal the plaintext and the reference must decrypt every emitted blob to the same bytes.",
+    "trusted: RefDC/ref.cms/ref.gkdi (calibrated on the 16 Windows vectors); StubCtx is a stub; plaintext length / SID shape / hash are workload parameters, the simulated ingredients are clock, path, DC shape, layout and segmentation",
+    T + ": seeded plans over clock, online/offline path, DC envelope shape and stored-blob layout")
